@@ -103,3 +103,19 @@ PROPS["C12"] = {
         {"pkg": RX, "func": "VerifH_C12_accounting4", "replay_tries": 40, "thorough_only": True, "covers": ["delivered", "feedback", "finish"]},
     ],
 }
+
+PA = "internal/pkg/controler/pause"
+PROPS["C14"] = {
+    "level": "model_checking",
+    "explanation": "the real pause manager (Subscribe, Unsubscribe, Pause, Resume, IsPaused) and the real stage worker loops are executed from SSA with their goroutines; "
+                   "every Pause/Resume call sequence within the bound and every interleaving within the preemption bound is explored; a caller or worker blocked forever shows up as a state with no enabled goroutine.",
+    "bounds": "1-2 subscribed workers; <=3 controller calls from {Pause, Resume, hand out work}; two concurrent controllers each doing Pause;Resume; <=2 preemptions per path",
+    "outside": "more workers/calls; the TUI menu and the WARC-queue watcher bodies (only their Pause/Resume call pattern is driven)",
+    "assumptions": COMMON_ASSUME + ["sequential consistency at channel/atomic/sync operations; plain accesses are not preemption points"],
+    "stub_pkgs": DEFAULT_STUBS + [STATS],
+    "harnesses": [
+        {"pkg": PA, "func": "VerifH_C14_protocol", "replay_tries": 5, "covers": ["matched-resume", "unmatched-resume", "done"]},
+        {"pkg": PA, "func": "VerifH_C14_two_controllers", "replay_tries": 50, "covers": ["both-returned"]},
+        {"pkg": "internal/pkg/finisher", "func": "VerifH_C14_finisher_workers", "replay_tries": 5, "covers": ["stop-while-paused", "stop-while-running", "stopped"]},
+    ],
+}
